@@ -54,7 +54,7 @@ func (n *ParallelNode) ID() string {
 // error happened and the node needs to stop running. The coordinator collects
 // job results in the same order as the order of the dispatched jobs, so the
 // order of messages is maintained.
-func (n *ParallelNode) Run(ctx context.Context) error {
+func (n *ParallelNode) Run(ctx context.Context) (runErr error) {
 	// allow each worker to store an error in the channel
 	errs := make(chan error, n.Workers)
 	trigger, cleanup, err := n.base.Trigger(ctx, n.logger, errs)
@@ -73,9 +73,29 @@ func (n *ParallelNode) Run(ctx context.Context) error {
 	// buffered, so it blocks when all workers are busy
 	workerJobs := make(chan parallelNodeJob)
 	var workerWg sync.WaitGroup
+	workers := make([]*parallelNodeWorker, 0, n.Workers)
+	// Registered before the deferred function that waits for the workers, so
+	// it runs after it. The error this node stops with normally comes from a
+	// message's status (see parallelNodeCoordinator.Run), which does not carry
+	// the classification the worker node gave the failure: if a worker node
+	// stopped with a fatal error (e.g. a processor error the DLQ did not
+	// absorb), this node fails fatally too, exactly like the wrapped node
+	// would when it is not run in parallel.
+	defer func() {
+		if runErr == nil || cerrors.IsFatalError(runErr) {
+			return
+		}
+		for _, w := range workers {
+			if cerrors.IsFatalError(w.err) {
+				runErr = w.err
+				return
+			}
+		}
+	}()
 	for i := 0; i < n.Workers; i++ {
 		node := n.NewNode(i)
 		worker := newParallelNodeWorker(node, workerJobs, n.logger)
+		workers = append(workers, worker)
 		workerWg.Add(1)
 		go func() {
 			defer workerWg.Done()
@@ -266,6 +286,10 @@ type parallelNodeWorker struct {
 	node   PubSubNode
 	jobs   cchan.ChanOut[parallelNodeJob]
 	logger log.CtxLogger
+
+	// err is the error the worker node stopped with, it can be read once Run
+	// returned.
+	err error
 }
 
 func newParallelNodeWorker(
@@ -309,9 +333,10 @@ func (w *parallelNodeWorker) Run(ctx context.Context) {
 }
 
 func (w *parallelNodeWorker) runWorker(ctx context.Context) {
-	// we can ignore errors, if an error happens they are propagated through
-	// a message nack/ack to the forwarder node and further to the coordinator
-	_ = w.node.Run(ctx)
+	// if an error happens it is propagated through a message nack/ack to the
+	// forwarder node and further to the coordinator, the error itself is kept
+	// for its classification (see ParallelNode.Run)
+	w.err = w.node.Run(ctx)
 }
 
 func (w *parallelNodeWorker) runForwarder(in chan<- *Message, out <-chan *Message) {
